@@ -14,8 +14,7 @@ Init == /\ ti \in 1..Len(IeTypes)
         /\ fi \in 1..Len(IeTypes[ti].fields)
         /\ ph = 0 /\ e = <<>> /\ v = 0
 Next == /\ ph = 0 /\ ph' = 1
-        /\ e' \in Priors(T, F)
-        /\ v' \in Values(T, F, e')
+        /\ \E g \in Groups(T, F) : e' \in g.priors /\ v' \in g.values
         /\ UNCHANGED <<ti, fi>>
 Spec == Init /\ [][Next]_vars
 
